@@ -834,8 +834,8 @@ func cmdQuery(ss *serverSession) {
 }
 
 func cmdReadCount(ss *serverSession) {
-	ss.getTran()
-	ss.PutBool(true).PutInt(0) //TODO
+	tran := ss.tran(ss.GetInt())
+	ss.PutBool(true).PutInt(tran.ReadCount())
 }
 
 func cmdRewind(ss *serverSession) {
@@ -903,8 +903,8 @@ func cmdUpdate(ss *serverSession) {
 }
 
 func cmdWriteCount(ss *serverSession) {
-	ss.getTran()
-	ss.PutBool(true).PutInt(0) //TODO
+	tran := ss.tran(ss.GetInt())
+	ss.PutBool(true).PutInt(tran.WriteCount())
 }
 
 type command func(ss *serverSession)
